@@ -1338,3 +1338,14 @@ func (p *Prog) PureFn(f *Fn) bool {
 	}
 	return pure
 }
+
+// Truth is Eval for rule code: known=false when the facts of st do not determine e.
+func (x *Explorer) Truth(e ast.Expr, st *State) (val, known bool) {
+	switch x.Eval(e, st) {
+	case yes:
+		return true, true
+	case no:
+		return false, true
+	}
+	return false, false
+}
